@@ -605,3 +605,58 @@ func c04Replay(t *testing.T, path string) {
 }
 
 var _ ipfslog.Entry
+
+// bounded-exhaustive tier: every sequence (with repetitions) of the operations about ONE subject, up to a small length:
+// "the latest event about a subject wins" is decided by such chains (join, leave, join again; enable, disable, reset...)
+func TestVerif_C04_SubjectChains(t *testing.T) {
+	acct := vacct.Get("C04")
+	if vacct.ReplayPath() != "" {
+		return
+	}
+	alphabets := map[string][]c04Op{
+		"group":  {{Kind: "join"}, {Kind: "leave"}},
+		"switch": {{Kind: "enable"}, {Kind: "disable"}, {Kind: "refreset"}},
+	}
+	maxLen := map[string]int{"group": 4, "switch": 3}
+	if vacct.Thorough() {
+		alphabets["contact"] = []c04Op{{Kind: "enqueue", Meta: 1}, {Kind: "enqueue", Meta: 2}, {Kind: "sent"}, {Kind: "incoming", Meta: 1}, {Kind: "discard"}, {Kind: "accept"}, {Kind: "block"}, {Kind: "unblock"}}
+		maxLen = map[string]int{"group": 6, "switch": 5, "contact": 4}
+	}
+	shard, nshards := vacct.Shard()
+	idx := 0
+	for _, subj := range []string{"group", "switch", "contact"} {
+		alpha := alphabets[subj]
+		if len(alpha) == 0 {
+			continue
+		}
+		for l := 2; l <= maxLen[subj]; l++ {
+			total := 1
+			for i := 0; i < l; i++ {
+				total *= len(alpha)
+			}
+			for code := 0; code < total; code++ {
+				idx++
+				if idx%nshards != shard {
+					continue
+				}
+				ops := make([]c04Op, l)
+				for i, c := 0, code; i < l; i, c = i+1, c/len(alpha) {
+					ops[i] = alpha[c%len(alpha)]
+				}
+				// two delivery plans: entry by entry, and one batch
+				for _, plan := range []uint64{0, 1<<uint(l-1) - 1} {
+					res := c04Run(t, ops, plan, l, 1)
+					if res.harness != "" {
+						t.Fatalf("harness: %s", res.harness)
+					}
+					c04Account(acct, "subject-chain/"+subj, ops, plan, res)
+					if res.violation != "" {
+						c04Report(acct, "TestVerif_C04_SubjectChains", ops, plan, l, 1, res)
+						t.Fatalf("C04 %s: %s\n%s", res.violation, res.msg, strings.Join(res.trace, "\n"))
+					}
+				}
+			}
+		}
+	}
+	acct.Label("subject-chains")
+}
